@@ -452,7 +452,8 @@ func realKill(cfg engine.Config, at simfs.Addr, rec *engine.Result) ([]core.Viol
 	}
 	atSnap := simfs.TakeSnap(root)
 	complete := func(rel string, e simfs.Entry) bool {
-		if e.Type != "file" || e.Perm != s0[rel].Perm {
+		// mode of the previous file, or of the final state (a symbolic link replaced by a regular file)
+		if e.Type != "file" || (e.Perm != s0[rel].Perm && e.Perm != rec.S1[rel].Perm) {
 			return false
 		}
 		if er, ok := rec.S1[rel]; ok && er.Sum == e.Sum {
